@@ -2,6 +2,7 @@ import Crusta.Proofs.Oracle
 import Crusta.Proofs.DynHistory
 import Crusta.Proofs.DynTotal
 import Crusta.Proofs.DynAttHistory
+import Crusta.Proofs.DynAttTotal
 
 /-!
 # C09 — redundant or invalid updates never corrupt a dynamic solver (property theorems)
@@ -114,5 +115,28 @@ theorem attack_assumption_update_contract {sem : DSem} {d : DynAtt.ADState} {w :
     ((d.update op).2 = .ok ∧ d.pending.step op = .ok (d.update op).1.pending ∨
      (d.update op).2 = .err ∧ d.pending.step op = .err d.pending ∧ (d.update op).1 = d) ∧
     ((d.update op).1.pending = d.pending → (d.update op).1 = d) := DynAtt.update_preserves h op
+
+/-- **the attack-assumption solvers stay usable.**  In every state reachable from a fresh solver
+(any reservation factor `num/den ≥ 1`) by update calls — accepted, rejected or redundant — and by
+queries, a query the solver type offers (`AttSupported`: the complete variant has no skeptical query,
+`unimplemented!()`), about an argument of the current framework, run on replies a correct SAT solver
+may give, never panics (no `unwrap()` on a missing variable or label, no index out of bounds, no
+underflow of `n_arg_vars - n_args`); the run ends with the right answer in a state satisfying the
+invariant again, or the SAT solver gave up, or the recorded reply list is too short -/
+theorem attack_assumption_solvers_stay_usable {sem : DSem} {num den : Nat} (hfac : 0 < den ∧ den ≤ num)
+    {ops : List StoreOp} {d : DynAtt.ADState} {w : World} (h : DynAtt.Reach sem num den ops d w)
+    (q : DQuery) (hq : DynAtt.AttSupported sem q) {l id : Nat} (hl : d.pending.Live id l)
+    {rs : List Reply} (hs : RunSound (DynAtt.query d q l) rs w) :
+    (∀ msg w', interp (DynAtt.query d q l) rs w ≠ (.crashed msg, w')) ∧
+    ((∃ d' a w', interp (DynAtt.query d q l) rs w = (.done (d', a), w') ∧
+        DynAtt.Reach sem num den ops d' w' ∧ DynAtt.AQInv sem d' w' ∧ d'.pending = d.pending ∧
+        Store.runOps Store.empty ops = some d.pending ∧ AnswerOK sem d.pending q l a) ∨
+     (∃ w', interp (DynAtt.query d q l) rs w = (.abort, w')) ∨
+     (∃ w', interp (DynAtt.query d q l) rs w = (.starved, w'))) := by
+  refine ⟨DynAtt.att_never_panics hfac h q hq hl hs, ?_⟩
+  rcases DynAtt.att_run_total hfac h q hq hl hs with ⟨d', a, w', h1, h2, h3, _, h5, h6, h7⟩ | h | h
+  · exact .inl ⟨d', a, w', h1, h2, h3, h5, h6, h7⟩
+  · exact .inr (.inl h)
+  · exact .inr (.inr h)
 
 end Crusta.C09
